@@ -265,6 +265,8 @@ class ReservedResources():
         # Reduce reserved resources by amounts released.
         to_delete = []
         for resource_name, amount in resources.items():
+            if amount == 0:
+                continue
             if amount > 0:
                 self._reserved_resources[resource_name] -= amount
             if self._reserved_resources[resource_name] == 0:
